@@ -184,6 +184,14 @@ func ruleR35(c *Ctx) {
 					out[resolve(u, x.X, bind, bindU)] = true
 				}
 			case *ast.CallExpr:
+				// seq()(callback): the sequence is run directly instead of ranged over
+				if inner, ok := ast.Unparen(x.Fun).(*ast.CallExpr); ok && len(x.Args) == 1 {
+					if sig, ok := info.TypeOf(x.Fun).Underlying().(*types.Signature); ok && sig.Params().Len() == 1 && sig.Results().Len() == 0 {
+						if _, isFn := sig.Params().At(0).Type().Underlying().(*types.Signature); isFn {
+							out[resolve(u, inner, bind, bindU)] = true
+						}
+					}
+				}
 				cu := m.calleeUnit(x)
 				if cu == nil || cu == u || cu.Lit != nil {
 					return true
